@@ -73,6 +73,10 @@ def main():
                 report["demo_output_on_clean_tree"] = out0[-600:]
         r = sh(f"git apply {patch}", cwd=wt)
         if r.returncode != 0:
+            # written against an earlier HEAD (before a later fix: commit): fall back to a 3-way merge
+            r = sh(f"git apply --3way {patch} && git reset -q", cwd=wt)
+            report["applied_with_3way"] = r.returncode == 0
+        if r.returncode != 0:
             report["error"] = "patch does not apply: " + r.stderr[:300]
             print(json.dumps(report, indent=1))
             return 2
